@@ -17,7 +17,8 @@ type Query struct {
 	Ms      int64
 	Out     string
 	Goal    string
-	Retried bool // re-run with a larger budget after the first pass timed out
+	Retried bool   // re-run with a larger budget after the first pass timed out
+	Recheck string // thorough tier: second solver and its answer on a query the first one proved
 }
 
 type Obligation struct {
